@@ -13,7 +13,8 @@ TRUSTED_BASE = [
 ASSUMPTIONS = ["source-to-model tie is differential testing"]
 RULE = ("structured URL strings, delimiter strings and random programs; each result is observed directly (eager memo) and "
         "through its unpickled twin (lazy), all 36 accessors compared, plus ==, hash and ordering between the two; known "
-        "finding F7 matched by the extracted classifier kf_f7; distinct = distinct program")
+        "finding F7 matched by the extracted classifier kf_f7; every accessor is also read as the FIRST thing asked of its own fresh "
+        "unpickled copy and compared with the original; distinct = distinct program")
 
 
 
